@@ -912,9 +912,12 @@ def _read_num(  # pylint: disable=too-many-locals,too-many-statements
         if s.endswith("M"):
             return decimal.Decimal(s[:-1])
         else:
-            sig = float(m) if "." in (m := match.group(1)) else int(m)
+            if "." in (m := match.group(1)):
+                # a float significand makes a float: let Python parse the whole literal so
+                # the value is the closest float rather than an inexact product
+                return float(s)
             exp = int(match.group(2))
-            res = sig * (10**exp)
+            res = int(m) * (10**exp)
             return -res if neg else res
     elif (match := arbitrary_base_literal.fullmatch(s)) is not None:
         base = int(match.group(1))
